@@ -206,7 +206,11 @@ def exhausted(spec, X, y, S, D=None):
             D = fps_distance_matrix(spec, X, y)
         if len(S) == 0:
             return False
-        return bool(hausdorff(D, S)[un].max() <= 1e-12 * max(np.abs(D).max(), 1e-300))
+        # rounding level of a squared distance: relative to the squared norms, not to the (possibly
+        # all-noise) distances themselves
+        A = items(np.asarray(X, dtype=float), axis_of(spec))
+        scale = max(float(np.abs(D).max()), float((A**2).sum(axis=1).max()), 1e-300)
+        return bool(hausdorff(D, S)[un].max() <= 1e-12 * scale)
     return residual_energy(spec, X, S) <= 1e-20
 
 
